@@ -89,7 +89,7 @@ var XProps = []XPropSpec{
 	{NS: "xmp", Name: "Rating", Kind: XInt, Bits: 8, Field: "Basic.Rating", Menu: []string{"3", "0", "5", "-1", "1"}},
 	{NS: "xmpMM", Name: "DocumentID", Kind: XUUID, Field: "MM.DocumentID", Menu: []string{"xmp.did:" + uuidA, "uuid:" + uuidB, uuidA, "xmp.did:" + strings.ToUpper(uuidB), "xmp.did:" + strings.ReplaceAll(uuidA, "-", "")}},
 	{NS: "xmpMM", Name: "OriginalDocumentID", Kind: XUUID, Field: "MM.OriginalDocumentID", Menu: []string{"xmp.did:" + uuidB}},
-	{NS: "xmpMM", Name: "InstanceID", Kind: XUUID, Field: "MM.InstanceID", Menu: []string{"xmp.iid:" + uuidA, "uuid:" + uuidA}},
+	{NS: "xmpMM", Name: "InstanceID", Kind: XUUID, Field: "MM.InstanceID", Menu: []string{"xmp.iid:" + uuidA, "uuid:" + uuidA, "urn:uuid:" + uuidB}},
 	{NS: "xmpMM", Name: "PreservedFileName", Kind: XString, Field: "MM.PreservedFileName", Menu: []string{"IMG_0042.CR3", "a"}},
 	{NS: "crs", Name: "RawFileName", Kind: XString, Field: "CRS.RawFileName", Menu: []string{"IMG_0042.CR3", "r"}},
 	{NS: "dc", Name: "format", Kind: XFormat, Field: "DC.Format", Menu: []string{"image/jpeg", "image/x-canon-cr3", "image/tiff"}},
